@@ -43,7 +43,9 @@ Dom(d, s) ==
     [] d = "midmedia"      -> IF s.tree = "mid" THEN BOOLEAN ELSE {FALSE}
     [] d = "pagerot"       -> [1..s.np -> {-1, 0, 270}]
     [] d = "pagemedia"     -> [1..s.np -> BOOLEAN]
-    [] d = "res"           -> {"own", "shared", "inherited"}
+    [] d = "res"           -> {"own", "shared", "inherited", "sharedsub", "sharedsubanc"}
+                              \* sharedsub: own /Resources whose /Font sub-dictionary is one shared indirect object of which
+                              \* each page uses a different entry; ...anc: the root node also has a /Resources without /Font
     [] d = "filter"        -> {"none", "flate"}
     [] d = "nstreams"      -> {1, 2}
     [] d = "sharedcontent" -> IF s.np > 1 THEN BOOLEAN ELSE {FALSE}
